@@ -195,6 +195,156 @@ def probe_array_count():
     return [(attr, forms[(attr, form)]) for attr in ('big', 'little', 'none') for form in ARRAY_FORMS]
 
 
+# ------------------------------------------------------------------ the ELEMENT type an array field is generated with
+ELEM_FORMS = ('direct', 'inline-record', 'inline-message', 'def', 'def-renamed', 'def-in-message', 'double-inline', 'double-def')
+FIXED_LEN = 5
+ENUM_BASES = ('int_4', 'uint_2', 'int_8_be', 'char_ascii')
+
+
+def elem_decls():
+    """(label, `type=` attribute, documented DATATYPE id of the elements): every documented id, enums over some of them"""
+    out = [(tid, tid, tid) for tid in sorted(DOCUMENTED)]
+    out += [('enum:' + b, 'enum:e_' + b.replace('-', '_'), b) for b in ENUM_BASES]
+    return out
+
+
+def elem_ty_tree(tid):
+    """schema tree (bincodec_common) of a documented DATATYPE id used as an array element"""
+    d = DOCUMENTED[tid]
+    if d[0] == 'int':
+        return ['int', d[1], d[2], d[3]]
+    if d[0] == 'bool':
+        return 'bool'
+    if d[0] == 'fixed':
+        return ['fixed', d[1], FIXED_LEN, False]
+    return [d[0], d[1]]
+
+
+def _spec_namespace():
+    """the names generated code sees: `from nasdaq_protocols.common.message import *` (record.mustache / message_soup_app.mustache)"""
+    ns = {}
+    exec('from nasdaq_protocols.common.message import *', ns)   # noqa: S102 — exactly the import line of the generated modules
+    return ns
+
+
+def probe_elem(obj):
+    """behavioural description of the element type object of a generated array type"""
+    import inspect
+    if not inspect.isclass(obj) and type(obj).__name__.startswith('Fixed'):
+        d = probe_type(type(obj))
+        try:
+            ok = obj.to_bytes('ab') == (FIXED_LEN, b'ab' + b' ' * (FIXED_LEN - 2))
+        except Exception:  # noqa
+            ok = False
+        return d if ok else ('unknown',)
+    return probe_type(obj)
+
+
+def probe_array_elem_forms():
+    """for each value of the `endian` attribute x each way an array field can be declared x each declared element DATATYPE:
+    the array type the real `Parser` / `FieldDef` generate — {(endian, form, label): {'text', 'counts', 'elem_text', 'elem',
+    'obj' (the evaluated type object, None if it could not be evaluated), 'xml' (the declaration)}}.  The `endian` attribute is
+    documented to select the byte order of the 2-byte COUNT; the elements are of the declared DATATYPE."""
+    import tempfile
+    from nasdaq_protocols.common.message import parser
+    ns = _spec_namespace()
+    decls = elem_decls()
+    out = {}
+
+    def attrs_of(type_attr, tid, array, en):
+        ln = f' length="{FIXED_LEN}"' if DOCUMENTED[tid][0] == 'fixed' else ''
+        return f'type="{type_attr}"{ln} array="{array}"{en}'
+
+    def record(attr, form, label, text, xml, levels):
+        row = {'text': text, 'xml': xml, 'counts': [], 'elem_text': '', 'elem': ('unknown',), 'obj': None}
+        try:
+            cts, base = _count_types(text)
+            row['counts'], row['elem_text'] = cts, base
+            if len(cts) == levels:
+                obj = eval(text, dict(ns))     # noqa: S307 — the type expression exactly as the generated module evaluates it
+                row['obj'] = obj
+                inner = obj
+                for _ in range(levels):
+                    inner = inner.type
+                row['elem'] = probe_elem(inner)
+        except Exception as e:  # noqa
+            row['elem'] = ('unknown',)
+            row['error'] = err_name(e)
+        out[(attr, form, label)] = row
+
+    for attr in ('big', 'little', 'none'):
+        en = '' if attr == 'none' else f' endian="{attr}"'
+        enums = '\n'.join(f'    <enum id="e_{b.replace("-", "_")}" type="{b}"><value name="m" description="d">'
+                          f'{"A" if DOCUMENTED[b][0] == "char" else "1"}</value></enum>' for b in ENUM_BASES)
+        fdefs, rfields, mfields = [], [], []
+        for i, (label, ta, tid) in enumerate(decls):
+            fdefs.append(f'    <field name="d{i}" {attrs_of(ta, tid, "single", en)}/>')
+            fdefs.append(f'    <field name="dd{i}" {attrs_of(ta, tid, "double", en)}/>')
+            rfields += [f'      <field name="ir{i}" {attrs_of(ta, tid, "single", en)}/>', f'      <field def="d{i}"/>',
+                        f'      <field name="rn{i}" def="d{i}"/>', f'      <field name="di{i}" {attrs_of(ta, tid, "double", en)}/>',
+                        f'      <field name="dr{i}" def="dd{i}"/>']
+            mfields += [f'      <field name="im{i}" {attrs_of(ta, tid, "single", en)}/>', f'      <field name="dm{i}" def="d{i}"/>']
+        nl = '\n'
+        xml = f"""<root>
+  <enums-root>
+{enums}
+  </enums-root>
+  <fielddef-root>
+{nl.join(fdefs)}
+  </fielddef-root>
+  <records-root>
+    <record id="rec"><fields>
+{nl.join(rfields)}
+    </fields></record>
+  </records-root>
+  <messages-root>
+    <message id="msg" message-id="1" message-group="g" direction="incoming"><fields>
+{nl.join(mfields)}
+    </fields></message>
+  </messages-root>
+</root>"""
+        fields, defs, err = {}, None, None
+        try:
+            with tempfile.NamedTemporaryFile('w', suffix='.xml', delete=False) as fh:
+                fh.write(xml)
+            defs = parser.Parser.parse(fh.name)
+            os.unlink(fh.name)
+            cc = defs.get_codegen_context()
+            fields = {f['name']: f['type'] for f in cc['records'][0]['fields']}
+            fields.update({f['name']: f['type'] for f in cc['messages'][0]['fields']})
+        except Exception as e:  # noqa
+            err = err_name(e)
+        names = {'inline-record': 'ir', 'def': 'd', 'def-renamed': 'rn', 'inline-message': 'im', 'def-in-message': 'dm',
+                 'double-inline': 'di', 'double-def': 'dr'}
+        for i, (label, ta, tid) in enumerate(decls):
+            for form in ELEM_FORMS:
+                levels = 2 if form.startswith('double') else 1
+                decl = f'<field {attrs_of(ta, tid, "double" if levels == 2 else "single", en)}/> declared {form}'
+                if form == 'direct':
+                    try:
+                        f = parser.FieldDef('x', type=ta, array='true', endian=None if attr == 'none' else attr,
+                                            length=FIXED_LEN if DOCUMENTED[tid][0] == 'fixed' else None)
+                        text = f.get_codegen_context(defs if defs is not None else parser.Definitions())['type']
+                    except Exception as e:  # noqa
+                        text = 'error:' + err_name(e)
+                else:
+                    text = fields.get(names[form] + str(i), 'error:' + (err or 'missing'))
+                record(attr, form, label, text, decl, levels)
+    return out
+
+
+def probe_array_elem():
+    """rows (endian attribute, declaration form, documented DATATYPE id of the declared elements, behaviour of the generated element
+    type) for `Extracted.arrayElemTable`; `Props/C02Decl.lean` proves every row is the documented binding of the declared id"""
+    forms = probe_array_elem_forms()
+    rows = []
+    for attr in ('big', 'little', 'none'):
+        for form in ELEM_FORMS:
+            for label, _ta, tid in elem_decls():
+                rows.append((attr, form + ('/enum' if label.startswith('enum:') else ''), tid, forms[(attr, form, label)]['elem']))
+    return rows
+
+
 def lean_desc(d):
     b = lambda x: 'true' if x else 'false'
     if d[0] == 'int':
@@ -204,13 +354,14 @@ def lean_desc(d):
     return '.' + d[0]
 
 
-def render_extracted(table, arrcount):
+def render_extracted(table, arrcount, arrelem):
     rows = ',\n'.join(f'  ("{tid}", {lean_desc(d)})' for tid, d in sorted(table.items()))
     arows = ',\n'.join(f'  ("{a}", "{t}")' for a, t in arrcount)
+    erows = ',\n'.join(f'  ("{a}", "{f}", "{tid}", {lean_desc(d)})' for a, f, tid, d in arrelem)
     return f'''import NasdaqModel.Spec.Layout
 /-
 GENERATED by harness/c02.py (`prebuild`) on every run of `./check C02` from the live library: behavioural probing of every entry of
-`TypeDefinition.Definitions` and of `FieldDef._field_context` (array count type).  Do not edit.
+`TypeDefinition.Definitions` and of `FieldDef._field_context` / `Parser` (array count type, array element type).  Do not edit.
 -/
 namespace NasdaqModel.Extracted
 open NasdaqModel.Spec.Layout
@@ -223,6 +374,11 @@ def arrayCountTable : List (String × String) := [
 {arows}
 ]
 
+/-- (endian attribute, declaration form, declared element DATATYPE id, probed behaviour of the element type of the generated array) -/
+def arrayElemTable : List (String × String × String × TyDesc) := [
+{erows}
+]
+
 end NasdaqModel.Extracted
 '''
 
@@ -231,7 +387,7 @@ def prebuild(ctx=None):
     """regenerate Extracted/TypeTable.lean from the library under test (before the Lean build)"""
     common.use_repo()
     bc.reset_lib()
-    text = render_extracted(probe_table(), probe_array_count())
+    text = render_extracted(probe_table(), probe_array_count(), probe_array_elem())
     old = open(EXTRACTED).read() if os.path.exists(EXTRACTED) else None
     if old != text:
         tmp = EXTRACTED + '.tmp'
